@@ -21,6 +21,7 @@
                                       object decided by `undoRecord` from the model's own history)
     lock                              → <t> | free
     reopen                            → ok          (clean close + reopen; no transaction in progress)
+    bystander                         → ok          (tpc_begin … on another storage instance: independent)
     undo <tid> <oid> <ctid> <undone> <pre> <cur>  → ok <rec> [calls] | err:Undo [calls]
                                       (a whole undo transaction of one object through undoResolve)
   state grammar:  a<n>.  |  p<state><state>  |  r<fmt><fields>.
@@ -319,6 +320,8 @@ def srStep (d : DState) (toks : List String) : DState × String :=
     match oid.toNat? with
     | some oid => (d, "[" ++ joinWith "," (histLine (d.sys.hist ++ d.sys.base) oid) ++ "]")
     | none => (d, "bad-op")
+  | ["bystander"] =>  -- a two-phase commit on ANOTHER storage instance of the same process: no effect here
+    (d, "ok")
   | ["reopen"] =>     -- close (saves the index) and reopen the storage: the committed history is unchanged
     (d, if d.sys.lock.isSome then "blocked" else "ok")
   | ["lock"] => (d, match d.sys.lock with | some t => toString t | none => "free")
